@@ -385,7 +385,8 @@ func newPathSelectorNode(selector string) *PathSelectorNode {
 }
 
 func (n *PathSelectorNode) Index(idx int) (PathNode, bool, error) {
-	return nil, false, &errors.PathError{}
+	// a name selects nothing from an array
+	return nil, false, nil
 }
 
 func (n *PathSelectorNode) Field(fieldName string) (PathNode, bool, error) {
@@ -472,7 +473,8 @@ func (n *PathIndexNode) Index(idx int) (PathNode, bool, error) {
 }
 
 func (n *PathIndexNode) Field(fieldName string) (PathNode, bool, error) {
-	return nil, false, &errors.PathError{}
+	// an index selects nothing from an object
+	return nil, false, nil
 }
 
 func (n *PathIndexNode) Get(src, dst reflect.Value) error {
@@ -519,7 +521,8 @@ func (n *PathIndexAllNode) Index(idx int) (PathNode, bool, error) {
 }
 
 func (n *PathIndexAllNode) Field(fieldName string) (PathNode, bool, error) {
-	return nil, false, &errors.PathError{}
+	// [*] selects nothing from an object
+	return nil, false, nil
 }
 
 func (n *PathIndexAllNode) Get(src, dst reflect.Value) error {
